@@ -1,5 +1,6 @@
 (* C09 — the pool talks to a host exactly while that host has a live connection. *)
 From VP Require Import Base ReqHosts ReqHostsProofs.
+From VPgen Require Import Facts.
 
 Theorem c09_iff : forall evs h,
   wf_from {| sp_latest := []; sp_closed := [] |} evs ->
@@ -25,3 +26,10 @@ Theorem c09_pinned_variant_refuted :
   aget 1%N (reg_run evs) = Some 20%N /\ instructable (spec_run evs) 1%N = Some 20%N.
 Proof. exact registry_pinned_refuted. Qed.
 Print Assumptions c09_pinned_variant_refuted.
+
+(* the registry model is told about every closed connection (RClose): in the shipped server the
+   WebSocket handler runs the disconnect hook (pool.CloseRemote) once remote.Serve() has returned,
+   whatever it returned - no return statement lies between the two (structural fact regenerated
+   from server.go on every run; exercised through the built binary by the check) *)
+Theorem c09_close_is_always_reported : ws_disconnect_hook_always = true.
+Proof. vm_compute. reflexivity. Qed.
